@@ -11,6 +11,7 @@ var stdAssumptions = []string{
 // expectedReach lists, per property, the reach counters that a healthy run of
 // the check should see above zero; those at zero are reported as blind spots.
 var expectedReach = map[string][]string{
+	"C14": {"roundtrip.mpclc", "roundtrip.bristol", "file>4KiB", "rejected-with-error", "accepted-well-formed", "discarded: declared size above one million"},
 	"C04": {"whole-circuit.transcripts-scanned", "streaming.transcripts-scanned", "sha2pc.transcripts-scanned"},
 	"C18": {"curve.P-256", "curve.P-224", "curve.P-384", "mixing.rejected", "mixing.other-curve", "mixing.sizes-compared", "mutation.rejected", "mutation.still-decodes", "round3.other-length-refused"},
 	"C10": {"parties=2", "parties=3", "parties=4", "parties=5", "circuit.compiled-for-GMW", "circuit.and-levels>3", "triples.checked-words", "cond.wakeup"},
@@ -25,6 +26,12 @@ var expectedReach = map[string][]string{
 }
 
 var props = map[string]propCfg{
+	"C14": {
+		Quick: 20 * time.Second, Thorough: 8 * time.Minute, Level: "fault_enumeration",
+		Rule:        "one case = (a) round trip: a generated circuit with a rich I/O signature (empty/long/odd names, int/uint/bool/array/struct types with compound members, headers above 4 KiB) written in mpclc or Bristol format to the simulated disk (write, sync, crash), read back through a reader with tape-chosen read sizes (whole, 1 byte, random, at most k around 4096), parsed, compared (gates, counts, signature, sampled truth tables) and written again (same bytes); or (b) damaged file: 100..1000 faults on a valid file - a window of consecutive truncation lengths and single-bit flips, byte flips biased to the header, extension by records of another valid file / a copy of an own gate record / random bytes, splices from another valid file, count/length fields set to boundary values, double faults - each parsed under recover with the property's precondition (declared sizes <= 10^6, checked by the harness's own scan) and judged: error, or a circuit whose gate inputs are defined before use, all wires assigned, NumGates == len(Gates); panic and hang (20 s wall clock, the only time-based verdict) are violations; non-trivial = every case; distinct = distinct SHA-256 of the event log",
+		Components:  map[string]string{"circuit.Marshal/MarshalBristol/ParseMPCLC/ParseBristol, types.Parse": "real code", "storage and readers": "simulated disk with short-reading readers (simdisk)", "reference": "harness signature comparison, truth-table evaluator, own format scan for the precondition"},
+		Assumptions: stdAssumptions,
+	},
 	"C04": {
 		Quick: 30 * time.Second, Thorough: 10 * time.Minute, Level: "exploration", DetSample: 12,
 		Rule:        "one case = one seeded session whose complete garbler->evaluator byte stream is recorded by the simulated pipe (whole-circuit mode 4/8: generated circuits, all OT kinds; streaming mode 3/8: corpus and generated MPCL programs) or the encoded Round 1 + Round 3 messages of a sha2pc run (1/8); the offset R is learned from the wires handed to the OT layer (all must agree) or, for sha2pc, by differential replay of the identical run with one garbler input bit flipped; the monitor builds the set of all 16-byte windows at every byte offset and reports R itself or two windows differing by R; non-trivial = every scanned transcript; distinct = distinct SHA-256 of the event log",
